@@ -362,8 +362,29 @@ fn synth(t: &mut Tracer, r: &mut Rng, cap: usize, nzones: usize, part: usize, np
     }
 }
 
+/// One provider, many zones: four real zones are asked first, then about fifty distinct zones with tiny tables (the fixed-offset
+/// Etc/GMT+n family and the UTC aliases), then the first questions again - a bounded or keyed cache that confuses entries once
+/// it has seen more zones than it has room for would answer them from another zone's data.
+fn long_session(t: &mut Tracer) {
+    t.call("Tzdb.fresh", json!({}));
+    let first = ["America/New_York", "Europe/Dublin", "Asia/Kolkata", "Australia/Sydney"];
+    let at = [pt(1_600_000_000, 0), pt(1_610_000_000, 0), pt(-1_000_000_000, 0)];
+    let mut asked: Vec<Value> = Vec::new();
+    for z in first { t.call("Tzdb.table", json!({"zone": z})); for a in &at { let q = json!({"zone": z, "t": a}); t.call("Tzdb.offset", q.clone()); asked.push(q); } }
+    let names = iana_names();
+    let small: Vec<&String> = names.iter().filter(|n| n.starts_with("Etc/") || ["GMT", "GMT0", "GMT+0", "GMT-0", "Greenwich", "UCT", "UTC", "Universal", "Zulu", "EST", "MST", "HST"].contains(&n.as_str())).collect();
+    for (i, z) in small.iter().enumerate() {
+        t.call("Tzdb.table", json!({"zone": z}));
+        let q = json!({"zone": z, "t": at[i % 3]}); t.call("Tzdb.offset", q.clone());
+        if i < 8 { asked.push(q); }
+    }
+    for q in asked { t.call("Tzdb.offset", q); }
+    t.reset();
+}
+
 fn lookup(t: &mut Tracer, r: &mut Rng, cap: usize, part: usize, nparts: usize) {
     let thorough = std::env::var("VERIF_TIER").map(|v| v == "thorough").unwrap_or(false);
+    if part == 0 { long_session(t); }
     let all: Vec<String> = if thorough { iana_names() } else { QUICK_ZONES.iter().map(|s| s.to_string()).collect() };
     let zones: Vec<&String> = all.iter().enumerate().filter(|(i, _)| i % nparts == part).map(|(_, z)| z).collect();
     for (gi, group) in zones.chunks(3).enumerate() {
